@@ -1,2 +1,11 @@
 -- Root of the `JivaVerif` library.
 import JivaVerif.Model.DiffDisk
+import JivaVerif.Model.Replica
+import JivaVerif.Model.Ops
+import JivaVerif.Model.Cleaner
+import JivaVerif.Model.Controller
+import JivaVerif.Properties.C01
+import JivaVerif.Properties.C06
+import JivaVerif.Properties.C10
+import JivaVerif.Properties.C11
+import JivaVerif.Properties.C16
